@@ -104,6 +104,18 @@ impl C11 {
                 out.push(Violation::new(format!("called label {l} is not a key of the function map\n{text}")).with("clause", "function-set"));
             }
         }
+        // every label that stands on the entry of a function is a name of that function
+        for (fi, f) in cfg.functions.iter().enumerate() {
+            for l in &cfg.nodes[f.entry].labels {
+                if cfg.function_labels.get(l) != Some(&fi) {
+                    out.push(
+                        Violation::new(format!("label {l} stands on the entry of function {:?} but the function map has {:?} for it\n{text}", f.labels, cfg.function_labels.get(l)))
+                            .with("clause", "function-set")
+                            .with("what", "entry-label-not-a-name"),
+                    );
+                }
+            }
+        }
         let reaches: Vec<BTreeSet<usize>> = cfg.functions.iter().map(|f| reach(&cfg, f.entry)).collect();
         for (fi, f) in cfg.functions.iter().enumerate() {
             ctx.fact("function_bodies_compared", 1);
